@@ -75,6 +75,14 @@ func (fc *FuncCtx) evalCall(st *State, call *ast.CallExpr) Val {
 		if fv.FnObj != nil {
 			fn = fv.FnObj
 			recv = fv.Recv
+		} else if fv.T != nil {
+			// a function value (field, parameter): modelled as a deterministic function of the value and its arguments
+			fc.note("call through a function value modelled as a pure function of the function value and its arguments")
+			var avs []Val
+			for _, a := range call.Args {
+				avs = append(avs, fc.evalExpr(st, a))
+			}
+			return fc.applyFnValue(st, fv, avs, resT)
 		} else {
 			fc.note("call through function value: result havoc'd")
 			for _, a := range call.Args {
@@ -571,8 +579,8 @@ func (fc *FuncCtx) applyContract(st *State, fn *types.Func, c *FuncContract, rec
 			// pack the remaining args into a slice
 			st2 := p.Type().(*types.Slice)
 			es := fc.sortOf(st2.Elem())
-			arr := fc.freshConst("va", ArrayOf(SInt, es))
-			cur := arr
+			// canonical base (elements beyond the length are not observable), so that equal argument lists are equal terms
+			var cur *Term = &Term{Op: "const-array", Args: []*Term{fc.zeroElem(es)}, Sort: ArrayOf(SInt, es)}
 			cnt := 0
 			for _, a := range args[i:] {
 				cur = Store(cur, IntLit(int64(cnt)), fc.coerce(st, a, st2.Elem()))
